@@ -90,6 +90,8 @@ hwloc_internal_cpukinds_restrict(hwloc_topology_t topology)
       memmove(kind, kind+1, (topology->nr_cpukinds - i - 1)*sizeof(*kind));
       i--;
       topology->nr_cpukinds--;
+      /* slots beyond nr_cpukinds must remain zeroed, hwloc_internal_cpukinds_register() appends infos into them in place */
+      memset(&topology->cpukinds[topology->nr_cpukinds], 0, sizeof(*kind));
       removed = 1;
     }
   }
